@@ -61,6 +61,8 @@ type rtResult struct {
 	hexb   string
 	junk   []byte
 	header int
+	// the encoded bytes (without junk) of a round trip whose decoding failed
+	packet []byte
 }
 
 var junkChoices = [][]byte{nil, nil, {0xff}, {0x83, 0x00, 0x01}, {0x82, 0x9d, 0xff, 0x00, 0x00, 0x00, 0x01, 0x8d}}
@@ -110,10 +112,12 @@ func roundtripOpt(v any, c *cfg, junk []byte, header int, wantHex bool, pregrow 
 	out, rest, err := edf.Decode(packet, c.dec)
 	if err != nil {
 		res.fail = &failure{kind: "decode-error", msg: fmt.Sprintf("Encode accepted the value (%d bytes) but Decode failed: %v", res.nbytes, err)}
+		res.packet = packet[:res.nbytes:res.nbytes]
 		return
 	}
 	if len(rest) != len(junk) || (len(junk) > 0 && &rest[0] != &packet[res.nbytes]) {
 		res.fail = &failure{kind: "rest", msg: fmt.Sprintf("Decode consumed %d bytes, Encode produced %d", len(packet)-len(rest), res.nbytes)}
+		res.packet = packet[:res.nbytes:res.nbytes]
 		return
 	}
 	// the receiver's buffer goes back to a pool: a decoded value must not alias it
@@ -435,6 +439,22 @@ func emitViolation(id, scenario, key string, c *cfg, v reflect.Value, res rtResu
 	defer diagnosing.Store(false)
 	x := v.Interface()
 	grow := 2*res.nbytes + 8192
+	// deterministic test on the very bytes that failed to decode: if the same bytes decode to the right value once
+	// enough bytes follow them, the encoding is correct and the failure is the decoder's dependence on trailing
+	// bytes ("n elements need n bytes" guards) - not a defect of the encoder such as a stale length after buffer
+	// growth, whatever else the value contains and however map iteration order falls in the re-runs below.
+	if res.packet != nil && bytesDecodeWithTrailingJunk(x, c, res.packet) {
+		sig := "depends-on-trailing-bytes/" + res.fail.kind
+		if contains(v, hasZeroSizeElems) {
+			sig = "zero-size-elements-rejected"
+		}
+		min, mres := v, res
+		if m, mr := minimize(v, c, 0, grow); mr.encErr == nil && mr.fail != nil && mr.fail.kind != "value" {
+			min, mres = m, mr
+		}
+		report(id, scenario, key, c, sig, v, res, min, mres, tags, "the bytes that failed to decode decode to the equal value when 128 KiB of junk follow them")
+		return
+	}
 	// evidence: how often does the same value pass (a) as it was, (b) when the pooled buffer cannot grow while
 	// encoding, (c) when many bytes follow the value in the packet.  Repeated because map iteration order
 	// changes the layout.
@@ -454,6 +474,16 @@ func emitViolation(id, scenario, key string, c *cfg, v reflect.Value, res rtResu
 			passJunk++
 		}
 	}
+	if passGrown == n {
+		// buffer growth suspected: it must NEVER fail with a pre-grown buffer; more re-runs so that a failure that
+		// merely depends on map iteration order is not mistaken for it
+		for i := 0; i < 12 && passGrown == n; i++ {
+			if r := roundtripOpt(x, c, res.junk, res.header, false, grow); r.encErr != nil || r.fail != nil {
+				passGrown--
+				rG = r
+			}
+		}
+	}
 	hintGrowth := contains(v, isMarshalerType) && res.nbytes+res.header > lib.DefaultBufferLength-8
 	hintZero := contains(v, hasZeroSizeElems)
 	lengthMsg := res.fail.kind == "decode-error" && (strings.Contains(res.fail.msg, "incorrect data length") || strings.Contains(res.fail.msg, "end of data"))
@@ -462,8 +492,8 @@ func emitViolation(id, scenario, key string, c *cfg, v reflect.Value, res rtResu
 	case passJunk == n && hintZero && lengthMsg && !(hintGrowth && passGrown == n && passPlain < n):
 		// decodes whenever enough bytes follow the value: the decoders' "n elements need n bytes" guard
 		sig = "zero-size-elements-rejected"
-	case passGrown == n && hintGrowth:
-		// never fails when the buffer cannot grow while a MarshalEDF value is encoded
+	case passGrown == n && hintGrowth && (passPlain < n || passJunk < n):
+		// reproduced, and never fails when the buffer cannot grow while a MarshalEDF value is encoded
 		sig = "marshaler-length-after-buffer-growth"
 	case passGrown == n && passPlain < n:
 		sig = "depends-on-buffer-growth/" + res.fail.kind
@@ -492,6 +522,23 @@ func emitViolation(id, scenario, key string, c *cfg, v reflect.Value, res rtResu
 		mres = res
 	}
 	report(id, scenario, key, c, sig, v, res, min, mres, tags, "")
+}
+
+// bytesDecodeWithTrailingJunk: packet (an encoding of x that failed to decode) decodes to x when long junk follows
+func bytesDecodeWithTrailingJunk(x any, c *cfg, packet []byte) (ok bool) {
+	defer func() {
+		if r := recover(); r != nil {
+			ok = false
+		}
+	}()
+	p := make([]byte, 0, len(packet)+len(longJunk))
+	p = append(append(p, packet...), longJunk...)
+	out, rest, err := edf.Decode(p, c.dec)
+	if err != nil || len(rest) != len(longJunk) {
+		return false
+	}
+	var st eqStats
+	return equalEDF(reflect.ValueOf(x), reflect.ValueOf(out), "v", eqOpts{sentinelIdentity: c.errIDs}, &st) == nil
 }
 
 func report(id, scenario, key string, c *cfg, sig string, v reflect.Value, res rtResult, min reflect.Value, mres rtResult, tags []string, evidence string) {
